@@ -4,6 +4,8 @@ import gen as G
 import conv
 
 COQ_IMPORTS = ['Model.DFA', 'Model.NFA', 'Judge.C01_judge']
+PDA_FREE = True      # no PDA is involved: the recycling pass runs with GambaTools.pda_epsilon_closure_max_iterations = 3
+LOG_SAFE = True      # no printed output is read back: the recycling pass runs with GambaTools.enable_logging = True
 RULE = ('DFAs: all total DFAs with <=2 states x <=2 symbols and 3 states x 1 symbol (thorough: also 3x2 sampled, 4x1), random <=7 states x <=3 symbols, all words <=4 (small) or 30 random words <=8. '
         'NFAs: all 2-state epsilon-NFAs over one symbol (1024; thorough also a sample of 2 symbols / 3 states), random <=7 states x <=3 symbols with epsilon moves and cycles, partial relations, '
         'empty/full F, unreachable states, epsilon symbol in {_, \'\', e}; observed nfa_accepts_word, epsilon_closure of every state and of random sets, N.E, both _nfa_cache tables. '
